@@ -5,7 +5,21 @@ from common import *
 req = read_request()
 from redun import task, Scheduler
 from redun.scheduler import catch, apply_tags, Job as SJob
-from redun.hashing import hash_call_node
+import hashlib
+
+
+def _benc(x):
+    if isinstance(x, str):
+        b = x.encode("utf8")
+        return str(len(b)).encode() + b":" + b
+    if isinstance(x, list):
+        return b"l" + b"".join(_benc(i) for i in x) + b"e"
+    raise TypeError(x)
+
+
+def hash_call_node(task_hash, args_hash, result_hash, children):
+    """independent re-computation: sha512 over the canonical (bencode) form of ['CallNode', task, args, result, sorted(children)], 40 hex digits"""
+    return hashlib.sha512(_benc(["CallNode", task_hash, args_hash, result_hash, sorted(children)])).hexdigest()[:40]
 from redun.backends.db import CallNode, CallEdge, Job, Execution, Value, Tag, Argument
 from redun.value import get_type_registry
 from redun.backends.base import TagEntity
@@ -74,7 +88,26 @@ def outer_fail(x):
     return add(leaf(x), boom(x))
 
 
+@task(namespace=NS)
+def one():
+    return 1
+
+
+@task(namespace=NS)
+def twins():
+    # two child jobs with one call hash, reached through different expressions
+    return [leaf(1), leaf(one())]
+
+
+@task(namespace=NS)
+def tagged_twice():
+    # the same tagged call through two different expressions: the second job is served with a known call hash
+    return [leaf.options(tags=[("otag", "from-options")])(9), leaf.options(tags=[("otag", "from-options")])(add(4, 5))]
+
+
 WORKFLOWS = [
+    ("twins", lambda: twins(), False),
+    ("tagged-twice", lambda: tagged_twice(), False),
     ("leaf", lambda: leaf(1), False),
     ("nest3", lambda: nest(3), False),
     ("fan3", lambda: fan(3), False),
@@ -203,12 +236,12 @@ def run_all(order):
         SJob.resolve, SJob.reject = orig_resolve, orig_reject
 
 
-orders = [list(range(len(WORKFLOWS))), [8, 1, 2, 9, 3, 7, 4, 5, 6, 0], [7, 3, 4, 0, 1, 8, 5, 6, 2, 9]]
+orders = [list(range(len(WORKFLOWS))), [10, 3, 4, 11, 5, 9, 6, 7, 8, 2, 0, 1], [9, 5, 1, 6, 2, 3, 10, 7, 8, 4, 11, 0]]
 for o in orders:
     w = run_all(o)
     if w:
         break
     samples.append(dict(order=o))
 finish(w is not None, witness=w, evaluations=n, samples=samples[:2],
-       bound="10 workflows (leaf, nesting depth 3, fan-out with a duplicate call, failure under catch, no-provenance subtree, value/job/execution/task tags, tags option, failing run, cached re-run) "
+       bound="12 workflows (two children with one call hash, a tagged call served twice, leaf, nesting depth 3, fan-out with a duplicate call, failure under catch, no-provenance subtree, value/job/execution/task tags, tags option, failing run, cached re-run) "
              "in 3 orders on one in-memory backend each; graph compared with the jobs observed at finalisation")
